@@ -105,7 +105,8 @@ class YowNetworkLayer(YowLayer, ConnectionCallbacks):
         return self.connected
 
     def send(self, data):
-        if self.connected:
+        # not while a disconnect is in progress either: the dispatcher may already have closed its socket
+        if self.connected and self.state != self.__class__.STATE_DISCONNECTING:
             self._dispatcher.sendData(data)
 
     def onRecvData(self, data):
